@@ -7,6 +7,9 @@ import corpus, c16
 # sources with two or more candidates at each hash-order site named in the anchors
 SITES = [
     ("two-instances-of-a-cte", "let x = (from t | filter a > 1)\nfrom x | join y = x (==k) | select {x.k, y.a}"),
+    ("cte-twice-carried-sort", "let x = (from t | sort {(a + b)} | select {k, a})\nfrom x | join y = x (==k) | take 5"),
+    ("cte-thrice-carried-sort", "let x = (from t | sort {-(a * 2), (b + 1)} | select {k})\nfrom x | join y = x (==k) | join z = x (x.k == z.k) | take 2..4"),
+    ("cte-twice-carried-sort-inner", "let x = (from t | sort {(a + b)} | select {k, a})\nfrom u | join y = x (==k) | join (from x | take 3) (==k)"),
     ("three-ctes", "let p = (from t | take 3)\nlet q = (from u | take 2)\nlet r = (from p | join q (==k))\nfrom r | join p2 = p (==k) | join q2 = q (==k) | select {r.a, p2.b, q2.c}"),
     ("named-args", "from t | window rows:-1..0 expanding:false (sort k | derive {s = sum b})"),
     ("named-args-func", "let f = a b:1 c:2 d:3 -> a + b + c + d\nfrom t | derive {y = (f a d:4 c:5 b:6)}"),
